@@ -58,7 +58,8 @@ def nonempty_frame_rules(F, ok, rep, P):
                 for x in f:
                     if x[0] == "cmp" and x[1] == "Le" and "pcm_frame_size" in str(x[2]) and "len" in str(x[3]):
                         why = "guarded by len >= pcm_frame_size"
-                    if x[0] == "call-false" and str(x[1]).endswith("is_empty"):
+                    if x[0] == "call-false" and str(x[1]).endswith("is_empty") and not any(o.startswith("Rem") for o in sl["ops"]):
+                        # (not enough where the block is first cut down to whole PCM frames: 1..channels-1 samples become 0)
                         why = "guarded by !is_empty()"
                     if x[0] == "call-ok" and re.search(r"stream::BlockSize as std::convert::TryFrom::try_from$", str(x[1])):
                         why = "after BlockSize::try_from(samples / channels) succeeded (0 is rejected)"
@@ -162,6 +163,25 @@ def run(ctx, rep):
             (k, val), _ = apply_fn(F, tb, v)
             r = result_of((k, val))
             rep.check("C15.limits", "BlockSize::try_from(%d) -> %s (padding < 2^24)" % (v, want), r[0] == want, loc_of(tb), "", "yields %s" % (r,))
+    # every rate below 2^20 (what STREAMINFO's 20-bit field holds) converts: Encoder::new expects it after its own range check
+    sr = [x for x in F.bodies if x.promoted is None and x.path == "<stream::SampleRate<u32> as std::convert::TryFrom<u32>>::try_from"]
+    if not sr:
+        rep.bad("C15.limits", "anchor:SampleRate<u32>::try_from", "", "not found")
+    for b in sr[:1]:
+        hi = spec["sample_rate_max"]
+        reps_ = sorted(set(v for v in representatives(compare_constants(b), 0, (1 << 32) - 1)) | {1, 65534, 65535, 65536, 254999, 255000, 256000, 655349, 655350, 655351, 655360, 655361, 700001, 1000000, hi - 1, hi, hi + 1, (1 << 32) - 1})
+        bad = []
+        for v in reps_:
+            try:
+                (k, val), _ = apply_fn(F, b, v, arg_local=1)
+                r = result_of((k, val))
+            except Exception as e:
+                r = ("stop", str(e))
+            want = "ok" if v <= hi else "err"
+            if r[0] != want or (want == "ok" and isinstance(r[1], tuple) and r[1][-1] and r[1][-1] != [v]):
+                bad.append((v, r[0], r[1][2] if isinstance(r[1], tuple) and len(r[1]) > 2 else r[1]))
+        rep.check("C15.limits", "SampleRate::try_from(rate) succeeds exactly for rate < 2^20 and keeps the rate (%d representatives)" % len(reps_), not bad, loc_of(b), "",
+                  "sample rates %s convert wrongly (value, outcome, variant): a rate the writers document as valid makes Encoder::new panic on its expect(), or an invalid one is accepted" % bad[:6])
     pb = anchor(F, rep, "C15.limits", "encode::Options::padding")
     if pb is not None:
         ti = [t for _, t in pb.calls() if re.search(r"TryInto<U>>::try_into$", callee_name(t)) and "metadata::BlockSize" in " ".join(t["f"]["args"])]
